@@ -31,6 +31,15 @@ variable {α : Type} [Add α] [Sub α] [Mul α] [Div α] [Neg α] [LT α] [LE α
 /-! ## simple collection: `detector.pixel.array += detector.charge.array` -/
 def collect (pixel charge : List α) : List α := List.zipWith (· + ·) pixel charge
 
+/-- the generated charge of one step: the pixelwise sum of everything that was generated (2-D arrays and
+clusters binned into their pixels — `Charge.array`; the binning itself is C14's subject) -/
+def generated (zero : List α) (contributions : List (List α)) : List α := contributions.foldl collect zero
+
+/-- several steps without reset: `charges[k]` is collected at step `k` -/
+def collectRun (pixel : List α) : List (List α) → List α
+  | [] => pixel
+  | c :: cs => collectRun (collect pixel c) cs
+
 /-! ## photo-conversion without sampling: `array * qe` -/
 def applyQE (qe : α) (photons : List α) : List α := photons.map (· * qe)
 
